@@ -16,7 +16,8 @@ C15_rank_shape C15_rank_spec C15_rank_consistent_with_forced C15_forced_strategy
 C15_strategy_selects C15_rank_by_strategy C15_info_summary C15_env_values C15_env_history_invariant
 C15_env_history_ranked C15_rank_consistent_with_forced_history C15_rank_consistent_with_forced_after_rank
 C15_env_history_refinement C15_env_allow_history_reduces C15_env_allow_history_ranked
-C15_coretype_frequency_lexicographic C15_driver_crosscheck C15_direct_rank""".split()]
+C15_coretype_frequency_lexicographic C15_driver_crosscheck C15_direct_rank
+C15_rank_forced_int_range C15_info_strategy_fails C15_nonnumeric_frequency_fails""".split()]
 CHECK_MODULES = ["Hw.Props.C15"]
 TRUSTED = ["hwloc_bitmap_compare_inclusion / and / andnot / iszero enter the model through their set-level meaning on finite "
            "sets (Nat masks); the bitmap layer itself is C03",
